@@ -358,11 +358,16 @@ def gen_hand_client(r, *, hmax=8, wmax=8, allow_stochastic=True, deterministic_o
         pass  # a single obstacle may move; count stays one
     h = r.randint(min_hw, hmax)
     w = r.randint(min_hw, wmax)
+    strip = r.random() < 0.06
+    if strip:
+        # size knob: a long strip (grids much wider / taller than any shipped one)
+        long, short = r.randint(16, 24), r.randint(max(1, min_hw), 3)
+        h, w = (short, long) if r.random() < 0.5 else (long, short)
     wkw = dict(unique=unique, beacon_colour=beacon_colour, valid_start=valid_start)
     obs = gen_obs(r, deterministic_only=deterministic_obs)
     if obs['name'] == 'partially_occluded' and obs['area'][0][1] != 0:
         obs['area'][0] = [obs['area'][0][0] - obs['area'][0][1], 0]
-    align = r.random() < 0.12
+    align = r.random() < 0.12 and not strip
     if align:
         # boundary condition: the view covers the grid exactly (for one pose)
         ahd = r.choice(HEADINGS)
@@ -415,7 +420,11 @@ def gen_hand_client(r, *, hmax=8, wmax=8, allow_stochastic=True, deterministic_o
         'beacon': beacon,
         'via_factory': r.random() < 0.5,
         'env_seed': env_seed if env_seed is not None else r.randrange(2**31),
+        'strip': strip,
     }
+    if len(chain) >= 2 and r.random() < 0.15:
+        i = r.randrange(len(chain) - 1)
+        spec['nest'] = [i, r.randint(i + 1, len(chain))]
     return spec
 
 
